@@ -355,6 +355,11 @@ def r03_5(ctx):
                 for i in (1, 2):
                     if a1 == f"{ex}[{i}]":
                         rec[i] = n
+                # `for operand in expr[1:]: _depend_on(sc, operand)` visits every operand there is
+                if isinstance(n.args[1], ast.Name) and any(
+                        isinstance(lp, ast.For) and isinstance(lp.target, ast.Name) and lp.target.id == n.args[1].id
+                        and ast.unparse(lp.iter) == f"{ex}[1:]" and any(x is n for b in lp.body for x in ast.walk(b)) for lp in ast.walk(f.node)):
+                    rec[1] = rec[2] = n
             if (isinstance(n.func, ast.Attribute) and n.func.attr == "add" and ast.unparse(n.func.value) == f"{ex}._dependents"
                     and len(n.args) == 1 and ast.unparse(n.args[0]) == sc):
                 leaf = n
@@ -417,7 +422,10 @@ def r03_5(ctx):
         ctx.bad(construct, "no call of self._rec_invalidate()", m.loc())
     else:
         gs = fl.guards_at(call) or set()
-        extra = {(k, p) for k, p in gs if not (k == "self.nodes[*].prompt" and p)}
+        import re as _re
+        # the prompt test as a loop over the nodes or as `any(node.prompt for node in self.nodes)`
+        any_form = _re.compile(r"any\(\(?(\w+)\.prompt for \1 in self\.nodes\)?\)")
+        extra = {(k, p) for k, p in gs if not (k == "self.nodes[*].prompt" and p) and not (any_form.fullmatch(k) and p)}
         if extra:
             ctx.bad(construct, f"guarded by {sorted(extra)} besides the prompt test", m.loc(call))
         else:
